@@ -643,6 +643,344 @@ def exist_nested(find=None, replace=None):
     h = EXIST_HELPER_NESTED if find is None else rep(EXIST_HELPER_NESTED, find, replace)
     return [(M, EXIST_OLD, EXIST_CALL), (M, UNINSTALL_DECL, h + UNINSTALL_DECL)]
 
+
+# ---- third pass
+# J. effects of Install in helper frames: the copy dispatch as a method of the source object, the clean-up behind a wrapper,
+# clean-up and copies together in one helper
+COPY_OLD = """	if installFromNonDir {
+		if err := file.CopyToDir(pluginExecutableFile, pluginDirPath); err != nil {
+			return nil, nil, fmt.Errorf("failed to copy plugin executable file from %s to %s: %w", pluginExecutableFile, pluginDirPath, err)
+		}
+	} else {
+		if err := file.CopyDirToDir(installOpts.PluginPath, pluginDirPath); err != nil {
+			return nil, nil, fmt.Errorf("failed to copy plugin files from %s to %s: %w", installOpts.PluginPath, pluginDirPath, err)
+		}
+	}
+"""
+CLEAN_OLD = """	if err := m.Uninstall(ctx, pluginName); err != nil {
+		if !errors.Is(err, os.ErrNotExist) {
+			return nil, nil, fmt.Errorf("failed to clean up plugin %s before installation: %w", pluginName, err)
+		}
+	}
+"""
+SYSPATH_OLD = """	pluginDirPath, err := m.pluginFS.SysPath(pluginName)
+	if err != nil {
+		return nil, nil, fmt.Errorf("failed to get the system path of plugin %s: %w", pluginName, err)
+	}
+"""
+# (a) the source object by pointer, read field by field wherever Install needs it; the copy dispatch is a method of it
+INSTALL_TAIL_OLD = VALIDATE_OLD[:VALIDATE_OLD.index('\t// validate')]
+SRC_CALL_OBJ = """	from, err := locateSource(ctx, installOpts.PluginPath)
+	if err != nil {
+		return nil, nil, err
+	}
+	pluginName := from.plugin
+"""
+SRC_HELPER_OBJ = """// sourceInfo is what Install installs from.
+type sourceInfo struct {
+	dir    string
+	file   string
+	plugin string
+	single bool
+}
+
+func locateSource(ctx context.Context, p string) (*sourceInfo, error) {
+	exe, name, err := parsePluginFromDir(ctx, p)
+	if err == nil {
+		return &sourceInfo{dir: p, file: exe, plugin: name}, nil
+	}
+	if !errors.Is(err, file.ErrNotDirectory) {
+		return nil, fmt.Errorf("failed to read plugin from input directory: %w", err)
+	}
+	base := filepath.Base(p)
+	name, err = parsePluginName(base)
+	if err != nil {
+		return nil, fmt.Errorf("failed to read plugin name from input file %s: %w", base, err)
+	}
+	isExec, err := isExecutableFile(p)
+	if err != nil {
+		return nil, fmt.Errorf("failed to check if input file %s is executable: %w", base, err)
+	}
+	if !isExec {
+		return nil, fmt.Errorf("input file %s is not executable", base)
+	}
+	return &sourceInfo{dir: p, file: p, plugin: name, single: true}, nil
+}
+
+func (s *sourceInfo) copyInto(dst string) error {
+	if s.single {
+		if err := file.CopyToDir(s.file, dst); err != nil {
+			return fmt.Errorf("failed to copy plugin executable file from %s to %s: %w", s.file, dst, err)
+		}
+		return nil
+	}
+	if err := file.CopyDirToDir(s.dir, dst); err != nil {
+		return fmt.Errorf("failed to copy plugin files from %s to %s: %w", s.dir, dst, err)
+	}
+	return nil
+}
+
+"""
+COPY_CALL_OBJ = """	if err := from.copyInto(pluginDirPath); err != nil {
+		return nil, nil, err
+	}
+"""
+def obj(find=None, replace=None, extra=(), copy_call=None, helper=None):
+    h = helper or SRC_HELPER_OBJ
+    if find is not None:
+        h = rep(h, find, replace)
+    return [(M, SRC_OLD, SRC_CALL_OBJ), (M, 'NewCLIPlugin(ctx, pluginName, pluginExecutableFile)', 'NewCLIPlugin(ctx, from.plugin, from.file)'),
+            (M, COPY_OLD, copy_call or COPY_CALL_OBJ), (M, UNINSTALL_DECL, h + UNINSTALL_DECL)] + list(extra)
+# the same with every use of the name read from the object again (no local copy)
+def obj_reread(find=None, replace=None, extra=()):
+    e = obj(find, replace, extra)
+    e[0] = (M, SRC_OLD, SRC_CALL_OBJ.replace('\tpluginName := from.plugin\n', ''))
+    return e + [(M, '\tif err := validatePluginName(pluginName); err != nil {', '\tif err := validatePluginName(from.plugin); err != nil {'),
+                (M, '\texistingPlugin, err := m.Get(ctx, pluginName)\n', '\texistingPlugin, err := m.Get(ctx, from.plugin)\n'),
+                (M, 'is lower than the existing plugin version %s", pluginName, newPluginMetadata.Version', 'is lower than the existing plugin version %s", from.plugin, newPluginMetadata.Version'),
+                (M, 'already exists", pluginName, existingPluginMetadata.Version', 'already exists", from.plugin, existingPluginMetadata.Version'),
+                (M, CLEAN_OLD, CLEAN_OLD.replace('pluginName', 'from.plugin')), (M, SYSPATH_OLD, SYSPATH_OLD.replace('pluginName', 'from.plugin'))]
+# (b) the copy dispatch as a plain function over values
+COPY_CALL_FN = """	if err := copyPluginFiles(pluginDirPath, installFromNonDir, pluginExecutableFile, installOpts.PluginPath); err != nil {
+		return nil, nil, err
+	}
+"""
+COPY_HELPER_FN = """func copyPluginFiles(dst string, single bool, exe, dir string) error {
+	var err error
+	switch {
+	case single:
+		err = file.CopyToDir(exe, dst)
+	default:
+		err = file.CopyDirToDir(dir, dst)
+	}
+	if err != nil {
+		return fmt.Errorf("failed to copy plugin files to %s: %w", dst, err)
+	}
+	return nil
+}
+
+"""
+def copyfn(find=None, replace=None, call=None, extra=()):
+    h = COPY_HELPER_FN if find is None else rep(COPY_HELPER_FN, find, replace)
+    return [(M, COPY_OLD, call or COPY_CALL_FN), (M, UNINSTALL_DECL, h + UNINSTALL_DECL)] + list(extra)
+# (c) the clean-up behind a wrapper that tolerates "not exist"
+CLEAN_CALL_WRAP = """	if err := m.clearInstalled(ctx, pluginName); err != nil {
+		return nil, nil, err
+	}
+"""
+CLEAN_HELPER_WRAP = """func (m *CLIManager) clearInstalled(ctx context.Context, name string) error {
+	if err := m.Uninstall(ctx, name); err != nil && !errors.Is(err, os.ErrNotExist) {
+		return fmt.Errorf("failed to clean up plugin %s before installation: %w", name, err)
+	}
+	return nil
+}
+
+"""
+def cleanwrap(find=None, replace=None, extra=()):
+    h = CLEAN_HELPER_WRAP if find is None else rep(CLEAN_HELPER_WRAP, find, replace)
+    return [(M, CLEAN_OLD, CLEAN_CALL_WRAP), (M, UNINSTALL_DECL, h + UNINSTALL_DECL)] + list(extra)
+# (d) clean-up, SysPath and both copies in one helper of Install
+REPLACE_CALL = """	if err := m.replaceFiles(ctx, pluginName, installFromNonDir, pluginExecutableFile, installOpts.PluginPath); err != nil {
+		return nil, nil, err
+	}
+"""
+REPLACE_HELPER = """func (m *CLIManager) replaceFiles(ctx context.Context, name string, single bool, exe, dir string) error {
+	if err := m.Uninstall(ctx, name); err != nil {
+		if !errors.Is(err, os.ErrNotExist) {
+			return fmt.Errorf("failed to clean up plugin %s before installation: %w", name, err)
+		}
+	}
+	dst, err := m.pluginFS.SysPath(name)
+	if err != nil {
+		return fmt.Errorf("failed to get the system path of plugin %s: %w", name, err)
+	}
+	if single {
+		if err := file.CopyToDir(exe, dst); err != nil {
+			return fmt.Errorf("failed to copy plugin executable file from %s to %s: %w", exe, dst, err)
+		}
+		return nil
+	}
+	if err := file.CopyDirToDir(dir, dst); err != nil {
+		return fmt.Errorf("failed to copy plugin files from %s to %s: %w", dir, dst, err)
+	}
+	return nil
+}
+
+"""
+REPLACE_OLD = '\t// clean up before installation, this guarantees idempotent for install\n' + CLEAN_OLD + '\t// core process\n' + SYSPATH_OLD + COPY_OLD
+def replacefiles(find=None, replace=None, call=None):
+    h = REPLACE_HELPER if find is None else rep(REPLACE_HELPER, find, replace)
+    return [(M, REPLACE_OLD, call or REPLACE_CALL), (M, UNINSTALL_DECL, h + UNINSTALL_DECL)]
+
+# K. the candidates of the source directory as records (path, name): the executable's record behind a pointer that is its own
+# "found" mark, every well-named file's record in a list; the fallback returns the fields of the one listed record
+WALK_REC = """	// walk the path
+	scan := &dirScan{root: path}
+	if err := filepath.WalkDir(path, scan.visit); err != nil {
+		return "", "", err
+	}
+	if hit := scan.exe; hit != nil {
+		return hit.file, hit.plugin, nil
+	}
+	// if no executable file was found, but there's one and only one
+	// potential candidate, try install the candidate
+	if len(scan.named) != 1 {
+		return "", "", errors.New("no plugin executable file was found")
+	}
+	only := scan.named[0]
+	if err := setExecutable(only.file); err != nil {
+		return "", "", fmt.Errorf("no plugin executable file was found: %w", err)
+	}
+	logger.Warnf("Found candidate plugin executable file %q without executable permission. Setting user executable bit and trying to install.", filepath.Base(only.file))
+	return only.file, only.plugin, nil
+}
+
+type namedFile struct {
+	file   string
+	plugin string
+}
+
+type dirScan struct {
+	root  string
+	exe   *namedFile
+	named []namedFile
+}
+
+func (s *dirScan) visit(p string, d fs.DirEntry, err error) error {
+	if err != nil {
+		return err
+	}
+	// skip sub-directories
+	if d.IsDir() && p != s.root {
+		return fs.SkipDir
+	}
+	info, err := d.Info()
+	if err != nil {
+		return err
+	}
+	// only take regular files
+	if !info.Mode().IsRegular() {
+		return nil
+	}
+	name, err := parsePluginName(d.Name())
+	if err != nil {
+		return nil
+	}
+	entry := namedFile{file: p, plugin: name}
+	s.named = append(s.named, entry)
+	isExec, err := isExecutableFile(p)
+	if err != nil {
+		return err
+	}
+	if !isExec {
+		return nil
+	}
+	if s.exe != nil {
+		return errors.New("found more than one plugin executable files")
+	}
+	s.exe = &entry
+	return nil
+}
+"""
+def rec(*pairs):
+    t = WALK_REC
+    for a, b in pairs:
+        t = rep(t, a, b)
+    return [(M, WALK_OLD, t)]
+# the list holds pointers to the records; the record is built field by field
+WALK_REC_PTRS = rep(rep(rep(rep(WALK_REC, '\tnamed []namedFile\n', '\tnamed []*namedFile\n'), '\tentry := namedFile{file: p, plugin: name}\n\ts.named = append(s.named, entry)\n', '\tentry := new(namedFile)\n\tentry.plugin = name\n\tentry.file = p\n\ts.named = append(s.named, entry)\n'),
+                    '\ts.exe = &entry\n', '\ts.exe = entry\n'), '\tif hit := scan.exe; hit != nil {\n\t\treturn hit.file, hit.plugin, nil\n\t}\n', '\tif scan.exe != nil {\n\t\tfound := *scan.exe\n\t\treturn found.file, found.plugin, nil\n\t}\n')
+# records with a function literal: the pointer and the list are captured variables
+WALK_REC_CLOSURE = """	// walk the path
+	type namedFile struct{ plugin, file string }
+	var exe *namedFile
+	var named []namedFile
+	if err := filepath.WalkDir(path, func(p string, d fs.DirEntry, err error) error {
+		if err != nil {
+			return err
+		}
+		// skip sub-directories
+		if d.IsDir() && p != path {
+			return fs.SkipDir
+		}
+		info, err := d.Info()
+		if err != nil {
+			return err
+		}
+		// only take regular files
+		if info.Mode().IsRegular() {
+			name, err := parsePluginName(d.Name())
+			if err != nil {
+				return nil
+			}
+			named = append(named, namedFile{file: p, plugin: name})
+			isExec, err := isExecutableFile(p)
+			if err != nil {
+				return err
+			}
+			if !isExec {
+				return nil
+			}
+			if exe != nil {
+				return errors.New("found more than one plugin executable files")
+			}
+			exe = &namedFile{plugin: name, file: p}
+		}
+		return nil
+	}); err != nil {
+		return "", "", err
+	}
+	if exe == nil {
+		if len(named) == 1 {
+			if err := setExecutable(named[0].file); err != nil {
+				return "", "", fmt.Errorf("no plugin executable file was found: %w", err)
+			}
+			logger.Warnf("Found candidate plugin executable file %q without executable permission. Setting user executable bit and trying to install.", filepath.Base(named[0].file))
+			return named[0].file, named[0].plugin, nil
+		}
+		return "", "", errors.New("no plugin executable file was found")
+	}
+	return exe.file, exe.plugin, nil
+}
+"""
+
+
+# further members of the classes J and K
+# J(e) the source object by value (struct result), the copy dispatch a function over the object's fields narrowed at the call
+COPY_CALL_NARROW = """	if err := copyPluginFiles(pluginDirPath, from.single, from.file, installOpts.PluginPath); err != nil {
+		return nil, nil, err
+	}
+"""
+def narrow(find=None, replace=None, call=None):
+    h = COPY_HELPER_FN if find is None else rep(COPY_HELPER_FN, find, replace)
+    return [(M, SRC_OLD, SRC_CALL_LIT), (M, COPY_OLD, call or COPY_CALL_NARROW), (M, UNINSTALL_DECL, SRC_HELPER_LIT + h + UNINSTALL_DECL)]
+# J(f) the install step (SysPath + copies) in a helper, the clean-up stays in Install; guard clauses with an error local
+PLACE_CALL = """	if err := m.placeFiles(pluginName, installFromNonDir, pluginExecutableFile, installOpts.PluginPath); err != nil {
+		return nil, nil, err
+	}
+"""
+PLACE_HELPER = """func (m *CLIManager) placeFiles(name string, single bool, exe, dir string) (err error) {
+	dst, err := m.pluginFS.SysPath(name)
+	if err != nil {
+		return fmt.Errorf("failed to get the system path of plugin %s: %w", name, err)
+	}
+	if !single {
+		err = file.CopyDirToDir(dir, dst)
+	} else {
+		err = file.CopyToDir(exe, dst)
+	}
+	if err == nil {
+		return nil
+	}
+	return fmt.Errorf("failed to copy plugin files to %s: %w", dst, err)
+}
+
+"""
+def place(find=None, replace=None, call=None):
+    h = PLACE_HELPER if find is None else rep(PLACE_HELPER, find, replace)
+    return [(M, '\t// core process\n' + SYSPATH_OLD + COPY_OLD, call or PLACE_CALL), (M, UNINSTALL_DECL, h + UNINSTALL_DECL)]
+# K(d) records, found mark still a bool beside the pointer-free record value list; the fallback copies the element into a local
+WALK_REC_RANGE = rep(rep(WALK_REC, '\tonly := scan.named[0]\n', '\tonly := &scan.named[0]\n'), '\tif hit := scan.exe; hit != nil {\n\t\treturn hit.file, hit.plugin, nil\n\t}\n', '\tif scan.exe != nil {\n\t\treturn scan.exe.file, scan.exe.plugin, nil\n\t}\n')
 VARIANTS = [
  dict(name='equal-version-reinstalls', file=M, expect='flagged(table/decision)',
       find='\t\t\tcase comp == 0:\n\t\t\t\treturn nil, nil, InstallEqualVersionError{Msg: fmt.Sprintf("plugin %s with version %s already exists", pluginName, existingPluginMetadata.Version)}\n', replace=''),
@@ -902,4 +1240,123 @@ VARIANTS = [
  dict(name='shape-existing-check-helper-nested-gate', expect='silent', edits=exist_nested()),
  dict(name='shape-existing-check-helper-nested-gate-downgrade', expect='flagged(table/decision)',
       edits=exist_nested('\tif comp < 0 {\n', '\tif comp < -1 {\n')),
+
+ # ---- third pass
+ # J. effects in helper frames
+ dict(name='shape-copy-dispatch-method', expect='silent', edits=obj(),
+      why='the choice between the two copy routines is a method of the source object (*sourceInfo).copyInto; the dir source is the field the constructor fills with its path parameter'),
+ dict(name='shape-copy-dispatch-method-fields-reread', expect='silent', edits=obj_reread(),
+      why='no local copy of the name: from.plugin is read again for the validation, the lookup, the clean-up and SysPath'),
+ dict(name='shape-copy-dispatch-method-kind-inverted', expect='flagged(table/decision)', edits=obj('\tif s.single {\n', '\tif !s.single {\n')),
+ dict(name='shape-copy-dispatch-method-kind-flag-lost', expect='flagged(table/decision)', edits=obj('\treturn &sourceInfo{dir: p, file: p, plugin: name, single: true}, nil\n', '\treturn &sourceInfo{dir: p, file: p, plugin: name}, nil\n')),
+ dict(name='shape-copy-dispatch-method-error-dropped', expect='flagged(order/success-only-after-copy)',
+      edits=obj('\t\tif err := file.CopyToDir(s.file, dst); err != nil {\n\t\t\treturn fmt.Errorf("failed to copy plugin executable file from %s to %s: %w", s.file, dst, err)\n\t\t}\n\t\treturn nil\n', '\t\t_ = file.CopyToDir(s.file, dst)\n\t\treturn nil\n')),
+ dict(name='shape-copy-dispatch-method-install-ignores-error', expect='flagged(order/success-only-after-copy)',
+      edits=obj(copy_call='\t_ = from.copyInto(pluginDirPath)\n')),
+ dict(name='shape-copy-dispatch-method-before-cleanup', expect='flagged(table/decision)',
+      edits=obj(copy_call='\t_ = pluginDirPath\n', extra=[(M, '\t// clean up before installation, this guarantees idempotent for install\n', '\tif dst, err := m.pluginFS.SysPath(pluginName); err == nil {\n\t\tif err := from.copyInto(dst); err != nil {\n\t\t\treturn nil, nil, err\n\t\t}\n\t}\n\t// clean up before installation, this guarantees idempotent for install\n')])),
+ dict(name='shape-copy-dispatch-method-cleanup-error-ignored', expect='flagged(order/copy-after-cleanup)',
+      edits=obj(extra=[(M, CLEAN_OLD, '\t_ = m.Uninstall(ctx, pluginName)\n')])),
+ dict(name='shape-copy-dispatch-method-copies-parent-directory', expect='flagged(order/copy-after-cleanup)',
+      edits=obj('\tif err := file.CopyDirToDir(s.dir, dst); err != nil {\n', '\tif err := file.CopyDirToDir(filepath.Dir(s.dir), dst); err != nil {\n')),
+ dict(name='shape-copy-dispatch-method-constructor-other-dir', expect='flagged(order/copy-after-cleanup)',
+      edits=obj('\t\treturn &sourceInfo{dir: p, file: exe, plugin: name}, nil\n', '\t\treturn &sourceInfo{dir: filepath.Dir(exe), file: exe, plugin: name}, nil\n'),
+      why='the directory the constructor records is not the source path on every exit'),
+ dict(name='shape-copy-dispatch-method-other-destination', expect='flagged(order/copy-after-cleanup)',
+      edits=obj(copy_call='\tif err := from.copyInto(filepath.Dir(pluginDirPath)); err != nil {\n\t\treturn nil, nil, err\n\t}\n'),
+      why='the files land in the plugin root, not in the directory of the plugin that was cleaned'),
+ dict(name='shape-copy-dispatch-method-name-rewritten', expect='flagged(gates/same-object-same-name)',
+      edits=obj_reread(extra=[(M, '\t// check plugin existence and get existing plugin metadata\n', '\tfrom.plugin = newPluginMetadata.Description\n\t// check plugin existence and get existing plugin metadata\n')]),
+      why='the name field of the shared object is written after it was validated: the plugin that is removed and replaced is another one'),
+ dict(name='shape-copy-dispatch-method-name-rewritten-by-helper', expect='flagged(gates/same-object-same-name)',
+      edits=obj_reread('\tif s.single {\n', '\ts.plugin = filepath.Base(dst)\n\tif s.single {\n')),
+ dict(name='shape-copy-dispatch-method-downgrade-allowed', expect='flagged(table/decision)',
+      edits=obj(extra=[(M, '\t\t\tcase comp < 0:', '\t\t\tcase comp < -1:')])),
+ dict(name='shape-copy-dispatch-function', expect='silent', edits=copyfn(),
+      why='copyPluginFiles(dst, single, exe, dir): a switch, one error local; the kind travels as a bool parameter'),
+ dict(name='shape-copy-dispatch-function-kind-negated-at-call', expect='flagged(table/decision)',
+      edits=copyfn(call=COPY_CALL_FN.replace('pluginDirPath, installFromNonDir,', 'pluginDirPath, !installFromNonDir,'))),
+ dict(name='shape-copy-dispatch-function-sources-swapped', expect='flagged(order/copy-after-cleanup)',
+      edits=copyfn(call=COPY_CALL_FN.replace('pluginExecutableFile, installOpts.PluginPath)', 'installOpts.PluginPath, filepath.Dir(pluginExecutableFile))'))),
+ dict(name='shape-copy-dispatch-function-error-lost', expect='flagged(order/success-only-after-copy)',
+      edits=copyfn('\tif err != nil {\n\t\treturn fmt.Errorf("failed to copy plugin files to %s: %w", dst, err)\n\t}\n', '\t_ = err\n')),
+ dict(name='shape-cleanup-wrapper', expect='silent', edits=cleanwrap(),
+      why='the clean-up sits in a wrapper that answers nil exactly after Uninstall returned nil or not-exist'),
+ dict(name='shape-cleanup-wrapper-tolerates-everything', expect='flagged(order/copy-after-cleanup)',
+      edits=cleanwrap('\tif err := m.Uninstall(ctx, name); err != nil && !errors.Is(err, os.ErrNotExist) {\n\t\treturn fmt.Errorf("failed to clean up plugin %s before installation: %w", name, err)\n\t}\n', '\t_ = m.Uninstall(ctx, name)\n')),
+ dict(name='shape-cleanup-wrapper-result-ignored', expect='flagged(order/copy-after-cleanup)',
+      edits=[(M, CLEAN_OLD, '\t_ = m.clearInstalled(ctx, pluginName)\n'), (M, UNINSTALL_DECL, CLEAN_HELPER_WRAP + UNINSTALL_DECL)]),
+ dict(name='shape-cleanup-wrapper-other-name', expect='flagged(gates/cleanup)',
+      edits=[(M, CLEAN_OLD, CLEAN_CALL_WRAP.replace('m.clearInstalled(ctx, pluginName)', 'm.clearInstalled(ctx, filepath.Base(pluginExecutableFile))')), (M, UNINSTALL_DECL, CLEAN_HELPER_WRAP + UNINSTALL_DECL)]),
+ dict(name='shape-cleanup-wrapper-and-copy-dispatch', expect='silent', edits=cleanwrap() + copyfn()[:1] + [(M, 'func (m *CLIManager) clearInstalled(', COPY_HELPER_FN + 'func (m *CLIManager) clearInstalled(')],
+      why='the clean-up in one helper, the copies in another: the order is decided in Install on the two helper calls'),
+ dict(name='shape-replace-files-helper', expect='silent', edits=replacefiles(),
+      why='clean-up, SysPath and both copies in one helper: the order rules are decided in that frame'),
+ dict(name='shape-replace-files-helper-copy-first', expect='flagged(table/decision)',
+      edits=replacefiles('\tif err := m.Uninstall(ctx, name); err != nil {\n\t\tif !errors.Is(err, os.ErrNotExist) {\n\t\t\treturn fmt.Errorf("failed to clean up plugin %s before installation: %w", name, err)\n\t\t}\n\t}\n\tdst, err := m.pluginFS.SysPath(name)\n\tif err != nil {\n\t\treturn fmt.Errorf("failed to get the system path of plugin %s: %w", name, err)\n\t}\n',
+                         '\tdst, err := m.pluginFS.SysPath(name)\n\tif err != nil {\n\t\treturn fmt.Errorf("failed to get the system path of plugin %s: %w", name, err)\n\t}\n\tif !single {\n\t\tif err := m.Uninstall(ctx, name); err != nil && !errors.Is(err, os.ErrNotExist) {\n\t\t\treturn err\n\t\t}\n\t}\n'),
+      why='a single-file source is copied over the installed plugin without removing it first'),
+ dict(name='shape-replace-files-helper-cleanup-error-ignored', expect='flagged(order/copy-after-cleanup)',
+      edits=replacefiles('\t\tif !errors.Is(err, os.ErrNotExist) {\n\t\t\treturn fmt.Errorf("failed to clean up plugin %s before installation: %w", name, err)\n\t\t}\n', '\t\t_ = err\n')),
+ dict(name='shape-replace-files-helper-before-version-check', expect='flagged(table/decision)',
+      edits=[(M, REPLACE_OLD, ''), (M, '\t// check plugin existence and get existing plugin metadata\n', REPLACE_CALL + '\t// check plugin existence and get existing plugin metadata\n'), (M, UNINSTALL_DECL, REPLACE_HELPER + UNINSTALL_DECL)]),
+ dict(name='shape-replace-files-helper-kind-inverted', expect='flagged(table/decision)', edits=replacefiles('\tif single {\n', '\tif !single {\n')),
+ # K. candidates as records
+ dict(name='shape-candidate-records', expect='silent', edits=rec(),
+      why='(path, name) records: the executable behind a pointer that is nil until one is found, all well-named files in a list of records; the fallback returns the fields of the one listed record'),
+ dict(name='shape-candidate-records-list-of-pointers', expect='silent', edits=[(M, WALK_OLD, WALK_REC_PTRS)],
+      why='the list holds pointers, the record is filled field by field, the found record is copied into a local before it is returned'),
+ dict(name='shape-candidate-records-closure', expect='silent', edits=[(M, WALK_OLD, WALK_REC_CLOSURE)],
+      why='the same with a function literal: pointer and list are captured variables, two separate records per entry'),
+ dict(name='shape-candidate-records-second-executable-wins', expect='flagged(discovery/pair-from-same-entry)',
+      edits=rec(('\tif s.exe != nil {\n\t\treturn errors.New("found more than one plugin executable files")\n\t}\n', ''))),
+ dict(name='shape-candidate-records-found-mark-preset', expect='flagged(discovery/pair-from-same-entry)',
+      edits=rec(('\tscan := &dirScan{root: path}\n', '\tscan := &dirScan{root: path, exe: &namedFile{file: path}}\n')),
+      why='the pointer is not nil when the walk starts: the record returned as found need not come from the walk'),
+ dict(name='shape-candidate-records-name-of-previous-entry', expect='flagged(discovery/pair-from-same-entry)',
+      edits=rec(('\tentry := namedFile{file: p, plugin: name}\n', '\tentry := namedFile{file: p, plugin: s.last}\n\ts.last = name\n'), ('\tnamed []namedFile\n}', '\tnamed []namedFile\n\tlast  string\n}'))),
+ dict(name='shape-candidate-records-path-of-other-file', expect='flagged(discovery/pair-from-same-entry)',
+      edits=rec(('\tentry := namedFile{file: p, plugin: name}\n', '\tentry := namedFile{file: filepath.Join(s.root, "notation-"+name), plugin: name}\n'))),
+ dict(name='shape-candidate-records-record-rewritten-later', expect='flagged(discovery/pair-from-same-entry)',
+      edits=rec(('\tif s.exe != nil {\n\t\treturn errors.New("found more than one plugin executable files")\n\t}\n', '\tif s.exe != nil {\n\t\ts.exe.plugin = name\n\t\treturn nil\n\t}\n')),
+      why='a later executable overwrites the name in the record of the first: the pair no longer comes from one entry'),
+ dict(name='shape-candidate-records-fallback-with-several', expect='flagged(discovery/fallback-pair)',
+      edits=rec(('\tif len(scan.named) != 1 {\n', '\tif len(scan.named) < 1 {\n'))),
+ dict(name='shape-candidate-records-fallback-beside-executable', expect='flagged(discovery/fallback-pair)',
+      edits=rec(('\tif hit := scan.exe; hit != nil {\n\t\treturn hit.file, hit.plugin, nil\n\t}\n', '\tif hit := scan.exe; hit != nil && len(scan.named) != 1 {\n\t\treturn hit.file, hit.plugin, nil\n\t}\n')),
+      why='with exactly one well-named file the fallback runs even when that file is the executable that was found'),
+ dict(name='shape-candidate-records-fallback-name-of-second', expect='flagged(discovery/fallback-pair)',
+      edits=rec(('\treturn only.file, only.plugin, nil\n', '\treturn only.file, scan.named[len(scan.named)-1].plugin, nil\n'))),
+ dict(name='shape-candidate-records-listed-before-name-check', expect='flagged(discovery/fallback-pair)',
+      edits=rec(('\tname, err := parsePluginName(d.Name())\n\tif err != nil {\n\t\treturn nil\n\t}\n\tentry := namedFile{file: p, plugin: name}\n\ts.named = append(s.named, entry)\n', '\tname, err := parsePluginName(d.Name())\n\tentry := namedFile{file: p, plugin: name}\n\ts.named = append(s.named, entry)\n\tif err != nil {\n\t\treturn nil\n\t}\n')),
+      why='files whose name does not parse are listed too: the fallback may return one of them with an empty name'),
+ dict(name='shape-candidate-records-list-edited-after-walk', expect='flagged(discovery/fallback-pair)',
+      edits=rec(('\tonly := scan.named[0]\n', '\tscan.named[0].plugin = filepath.Base(path)\n\tonly := scan.named[0]\n'))),
+ dict(name='shape-candidate-records-setexecutable-unchecked', expect='flagged(discovery/fallback-pair)',
+      edits=rec(('\tif err := setExecutable(only.file); err != nil {\n\t\treturn "", "", fmt.Errorf("no plugin executable file was found: %w", err)\n\t}\n', '\t_ = setExecutable(only.file)\n'))),
+ dict(name='shape-candidate-records-symlink-candidates', expect='flagged(discovery/regular-files-only)',
+      edits=rec(('\tif !info.Mode().IsRegular() {\n', '\tif info.Mode().IsDir() {\n'))),
+ dict(name='shape-candidate-records-F14', expect='flagged(discovery/skip-sub-directories)',
+      edits=rec(('\tif d.IsDir() && p != s.root {\n', '\tif d.IsDir() && d.Name() != filepath.Base(s.root) {\n'))),
+ dict(name='shape-candidate-records-closure-second-executable-wins', expect='flagged(discovery/pair-from-same-entry)',
+      edits=[(M, WALK_OLD, rep(WALK_REC_CLOSURE, '\t\t\tif exe != nil {\n\t\t\t\treturn errors.New("found more than one plugin executable files")\n\t\t\t}\n', ''))]),
+ dict(name='shape-candidate-records-closure-fields-swapped', expect='flagged(discovery/pair-from-same-entry)',
+      edits=[(M, WALK_OLD, rep(WALK_REC_CLOSURE, '\t\t\texe = &namedFile{plugin: name, file: p}\n', '\t\t\texe = &namedFile{plugin: p, file: name}\n'))]),
+
+ # further members of the classes
+ dict(name='shape-copy-dispatch-narrowed-fields', expect='silent', edits=narrow(),
+      why='the source object by value; the dispatch helper receives from.single and from.file narrowed at the call'),
+ dict(name='shape-copy-dispatch-narrowed-fields-negated', expect='flagged(table/decision)', edits=narrow(call=COPY_CALL_NARROW.replace('from.single', '!from.single'))),
+ dict(name='shape-place-files-helper', expect='silent', edits=place(),
+      why='SysPath and the copies in a helper with a named error result and one error local; the clean-up stays in Install'),
+ dict(name='shape-place-files-helper-kind-inverted', expect='flagged(table/decision)', edits=place('\tif !single {\n', '\tif single {\n')),
+ dict(name='shape-place-files-helper-error-swallowed', expect='flagged(order/success-only-after-copy)',
+      edits=place('\tif err == nil {\n\t\treturn nil\n\t}\n\treturn fmt.Errorf("failed to copy plugin files to %s: %w", dst, err)\n', '\treturn nil\n')),
+ dict(name='shape-place-files-helper-other-plugin', expect='flagged(gates/copy)',
+      edits=place(call=PLACE_CALL.replace('m.placeFiles(pluginName,', 'm.placeFiles(newPluginMetadata.Description,')),
+      why='the files are copied into the directory of another name than the one that was validated and cleaned'),
+ dict(name='shape-place-files-helper-before-cleanup', expect='flagged(table/decision)',
+      edits=[(M, '\t// core process\n' + SYSPATH_OLD + COPY_OLD, ''), (M, '\t// clean up before installation, this guarantees idempotent for install\n', PLACE_CALL + '\t// clean up before installation, this guarantees idempotent for install\n'), (M, UNINSTALL_DECL, PLACE_HELPER + UNINSTALL_DECL)]),
+ dict(name='shape-candidate-records-element-by-address', expect='silent', edits=[(M, WALK_OLD, WALK_REC_RANGE)],
+      why='the fallback reads the fields through the address of element 0; the found record is read through the cell twice'),
 ]
